@@ -206,9 +206,13 @@ class FuzzWorker(Worker):
         scratch = os.path.join(self.tmp, "%s_corpus" % self.tag)
         os.makedirs(scratch, exist_ok=True)
         c.append(scratch)
-        seedc = os.path.join(VERIF, "fuzz_corpus", self.job["mon"])
-        if os.path.isdir(seedc) and os.listdir(seedc):
-            c.append(seedc)
+        seedc = os.path.join(VERIF, "fuzz_corpus", self.job["mon"] + ".tar.gz")
+        if os.path.exists(seedc):
+            unpacked = os.path.join(self.tmp, "%s_seed_corpus" % self.tag)
+            os.makedirs(unpacked, exist_ok=True)
+            subprocess.run(["tar", "-xzf", seedc, "-C", unpacked], check=False)
+            if os.listdir(unpacked):
+                c.append(unpacked)
         return c + (extra or [])
 
     def run_all(self, timeout, max_restarts=0):
